@@ -396,5 +396,135 @@ func init() {
 			}
 			fmt.Fprintf(&e.out, "def gate%s : String := %s\n", g, leanStr(def))
 		}
+		c15InformerFacts(e, get)
 	}
+}
+
+// ---- informer glue (quota_handler.go, NewQuotaInformer) ----
+
+// c15ParamOrigin follows a local variable back through `x := f(y)` definitions to the parameter it was computed
+// from ("$p<i>"), or "?".
+func c15ParamOrigin(fd *ast.FuncDecl, id *ast.Ident, depth int) string {
+	if id == nil || id.Obj == nil || depth > 6 {
+		return "?"
+	}
+	switch decl := id.Obj.Decl.(type) {
+	case *ast.Field:
+		i := 0
+		for _, f := range fd.Type.Params.List {
+			for _, pid := range f.Names {
+				if pid.Obj == id.Obj {
+					return fmt.Sprintf("$p%d", i)
+				}
+				i++
+			}
+		}
+	case *ast.AssignStmt:
+		for i, l := range decl.Lhs {
+			if lid, ok := l.(*ast.Ident); ok && lid.Obj == id.Obj && len(decl.Rhs) == len(decl.Lhs) {
+				origin := "?"
+				ast.Inspect(decl.Rhs[i], func(n ast.Node) bool {
+					if x, ok := n.(*ast.Ident); ok && origin == "?" && x.Obj != nil && x.Obj.Kind == ast.Var {
+						origin = c15ParamOrigin(fd, x, depth+1)
+					}
+					return origin == "?"
+				})
+				return origin
+			}
+		}
+	}
+	return "?"
+}
+
+func c15InformerFacts(e *ext, get func(string) *ast.FuncDecl) {
+	d := "pkg/webhook/elasticquota"
+	// the handlers: writes into the recorded state in source order, lock before state
+	for _, f := range []struct{ fn, ev, lock string }{
+		{"OnQuotaAdd", "onAddEvents", "onAddLockFirst"}, {"OnQuotaUpdate", "onUpdEvents", "onUpdLockFirst"}, {"OnQuotaDelete", "onDelEvents", "onDelLockFirst"},
+	} {
+		fd := get(f.fn)
+		if fd == nil {
+			fmt.Fprintf(&e.out, "def %s : List (String × String) := []\ndef %s : Bool := false\n", f.ev, f.lock)
+			continue
+		}
+		fmt.Fprintf(&e.out, "def %s : List (String × String) := %s\n", f.ev, c15Pairs(c15Events(fd.Body, nil)))
+		fmt.Fprintf(&e.out, "def %s : Bool := %v\n", f.lock, c15LockFirst(fd.Body))
+	}
+	// OnQuotaUpdate: namespace re-binding = loops over namespace lists; for each loop in source order: what it does to
+	// namespaceToQuotaMap (del / set) and which parameter (old = $p0, new = $p1) the ranged list was computed from
+	nsOps := []string{}
+	if fd := get("OnQuotaUpdate"); fd != nil {
+		ast.Inspect(fd.Body, func(n ast.Node) bool {
+			rs, ok := n.(*ast.RangeStmt)
+			if !ok {
+				return true
+			}
+			op := ""
+			ast.Inspect(rs.Body, func(m ast.Node) bool {
+				switch v := m.(type) {
+				case *ast.CallExpr:
+					if id, ok := v.Fun.(*ast.Ident); ok && id.Name == "delete" && len(v.Args) == 2 && c15QtField(v.Args[0]) == "namespaceToQuotaMap" {
+						op += "del"
+					}
+				case *ast.AssignStmt:
+					for _, l := range v.Lhs {
+						if _, ok := l.(*ast.IndexExpr); ok && c15QtField(l) == "namespaceToQuotaMap" {
+							op += "set"
+						}
+					}
+				}
+				return true
+			})
+			if op != "" {
+				origin := "?"
+				if id, ok := rs.X.(*ast.Ident); ok {
+					origin = c15ParamOrigin(fd, id, 0)
+				}
+				nsOps = append(nsOps, op+":"+origin)
+			}
+			return true
+		})
+	}
+	fmt.Fprintf(&e.out, "def onUpdNsOps : List (String × String) := %s\n", c15Pairs(nsOps))
+	// NewQuotaInformer: which handler value is registered, and what its three functions are
+	typ, call := "", ""
+	funcs := []string{}
+	if fd := e.funcDecl(d, "", "NewQuotaInformer"); fd != nil && fd.Body != nil {
+		ast.Inspect(fd.Body, func(n ast.Node) bool {
+			c, ok := n.(*ast.CallExpr)
+			if !ok {
+				return true
+			}
+			sel, ok := c.Fun.(*ast.SelectorExpr)
+			if !ok || !strings.HasPrefix(sel.Sel.Name, "AddEventHandler") || len(c.Args) == 0 {
+				return true
+			}
+			if call != "" {
+				call += "+"
+			}
+			call += sel.Sel.Name
+			cl, ok := c.Args[0].(*ast.CompositeLit)
+			if !ok {
+				typ = "not-a-literal:" + c15Norm(e, fd, c.Args[0])
+				return true
+			}
+			switch t := cl.Type.(type) {
+			case *ast.SelectorExpr:
+				typ = t.Sel.Name
+			case *ast.Ident:
+				typ = t.Name
+			}
+			for _, el := range cl.Elts {
+				if kv, ok := el.(*ast.KeyValueExpr); ok {
+					funcs = append(funcs, c15Src(e, kv.Key)+":"+c15Norm(e, fd, kv.Value))
+				}
+			}
+			return true
+		})
+	} else {
+		e.fail("NewQuotaInformer not found")
+	}
+	fmt.Fprintf(&e.out, "def informerRegistration : String := %s\n", leanStr(call))
+	fmt.Fprintf(&e.out, "def informerHandlerType : String := %s\n", leanStr(typ))
+	fmt.Fprintf(&e.out, "def informerHandlers : List (String × String) := %s\n", c15Pairs(funcs))
 }
